@@ -964,7 +964,11 @@ def stage_c_malformed(run, tier):
 T_MODEL = {"type": "object", "required": ["id"], "properties": {"id": {"type": "integer"}, "when": {"type": "string", "format": "date"}, "kind": {"$ref": SREF + "TEnum"},
                                                                  "tags": {"type": "array", "items": {"type": "string"}}}}
 T_ENUM = {"type": "string", "enum": ["cat", "dog"]}
-TARGETS = {"TModel": T_MODEL, "TEnum": T_ENUM}
+# late targets: declared AFTER every holder, so that a holder's allOf member is a FORWARD reference (resolved by the retry loop of _process_models).
+# `Item` -> `BaseItem`: the referenced name merely ENDS WITH the referring class name (must not be mistaken for a recursive allOf); `Zed` -> `Other`: control.
+LATE_TARGETS = ["BaseItem", "Other", "BigCat"]
+TARGETS = {"TModel": T_MODEL, "TEnum": T_ENUM, "BaseItem": T_MODEL, "Other": T_MODEL, "BigCat": T_MODEL}
+HOLDER_NAMES = {"fwdallof-suffix:BaseItem": "Item", "fwdallof-control:Other": "Zed", "fwdallof-suffix3:BigCat": "Cat"}
 M_INST = [{"id": 3, "when": "2020-01-01", "kind": "cat", "tags": ["a", "b"]}, {"id": 0}, {"id": 1, "zzz": True, "kind": "dog"}, {"id": 2, "kind": "bird"}, {"when": "2020-01-01"}, {"id": 4, "when": "nope"}]
 E_INST = ["cat", "dog", "bird", 5]
 # (position id, target, holder schema as a function of X, instances as a function of the target instance list)
@@ -981,12 +985,18 @@ SCHEMA_POS = [
     ("addl:TModel", "TModel", lambda X: {"type": "object", "additionalProperties": X}, lambda I: [{"a": I[0], "b": I[1]}, {}, {"a": I[3]}]),
     ("addl:TEnum", "TEnum", lambda X: {"type": "object", "properties": {"fixed": {"type": "string"}}, "additionalProperties": X}, lambda I: [{"a": I[0], "fixed": "f"}, {"a": I[2]}, {}]),
     ("allof:TModel", "TModel", lambda X: {"allOf": [X, {"type": "object", "properties": {"extra": {"type": "string"}}}]}, lambda I: [{**i, "extra": "e"} for i in I] + I[:2]),
+    ("fwdallof-suffix:BaseItem", "BaseItem", lambda X: {"allOf": [X, {"type": "object", "properties": {"extra": {"type": "string"}}}]}, lambda I: [{**i, "extra": "e"} for i in I] + I[:2]),
+    ("fwdallof-control:Other", "Other", lambda X: {"allOf": [X, {"type": "object", "properties": {"extra": {"type": "string"}}}]}, lambda I: [{**i, "extra": "e"} for i in I] + I[:2]),
+    ("fwdallof-suffix3:BigCat", "BigCat", lambda X: {"allOf": [{"type": "object", "properties": {"pre": {"type": "integer"}}}, X, {"type": "object", "required": ["extra"], "properties": {"extra": {"type": "string"}}}]},
+     lambda I: [{**i, "extra": "e", "pre": 1} for i in I] + I[:2]),
     ("default:TEnum", "TEnum", lambda X: {"type": "object", "properties": {"k": ({"allOf": [X], "default": "dog"} if "$ref" in X else {**X, "default": "dog"})}}, lambda I: [{"k": i} for i in I] + [{}]),
 ]
 EP_POS = ["param-query:TEnum", "param-header:TEnum", "param-query-list:TEnum", "body-json:TModel", "body-form:TModel", "response:TModel", "response-list:TModel"]
 
 
 def holder_name(pid):
+    if pid in HOLDER_NAMES:
+        return HOLDER_NAMES[pid]
     return "H" + "".join(w.capitalize() for w in re.split(r"[:\-]", pid))
 
 
@@ -996,6 +1006,8 @@ def schema_doc(inline_positions):
     S = {"TModel": copy.deepcopy(T_MODEL), "TEnum": copy.deepcopy(T_ENUM)}
     for pid, t, mk, _ in SCHEMA_POS:
         S[holder_name(pid)] = mk(X(pid, t))
+    for t in LATE_TARGETS:
+        S[t] = copy.deepcopy(TARGETS[t])
     paths = {}
     for pid in EP_POS:
         kind, t = pid.split(":")
@@ -1048,7 +1060,7 @@ def schema_ops(doc):
             labels.append((pid, "missing-class"))
             ops.append({"op": "signature", "module": "models", "name": h})
             continue
-        for j in mki(M_INST if t == "TModel" else E_INST):
+        for j in mki(E_INST if t == "TEnum" else M_INST):
             ops.append({"op": "roundtrip", "cls": h, "data": j})
             labels.append((pid, json.dumps(j)))
         if pid.startswith("default"):
@@ -1138,7 +1150,7 @@ def stage_c_schemas(run, tier):
         run.violation("harness-or-generator", {"error": ref["error"], "doc": ref.get("doc")})
         return
     # ---- one shared class per referenced schema (all-by-reference document)
-    expected = {"TModel", "TEnum"} | {holder_name(p[0]) for p in SCHEMA_POS}
+    expected = {"TModel", "TEnum"} | set(LATE_TARGETS) | {holder_name(p[0]) for p in SCHEMA_POS}
     share_case = {"check": "shared-class", "classes": ref["classes"]}
     run.note_case(share_case, nontrivial=True, kind="shared-class")
     if set(ref["classes"]) != expected:
@@ -1150,7 +1162,7 @@ def stage_c_schemas(run, tier):
         if where != ["models/" + {"TModel": "t_model", "TEnum": "t_enum"}[t] + ".py"]:
             run.violation("oracle", {"doc": ref["doc"], "target": t, "defined_in": where, "note": "referenced schema is not defined in exactly one module"})
     for pid, t, _, _ in SCHEMA_POS:
-        if pid.startswith("allof"):
+        if "allof" in pid.split(":")[0]:
             continue
         hm = "models/" + re.sub(r"(?<!^)(?=[A-Z])", "_", holder_name(pid)).lower() + ".py"
         src = next((v for k, v in mods.items() if k.replace("_", "") == hm.replace("_", "")), "")
